@@ -166,8 +166,14 @@ def generate(seed, tier):
             ops.append(["compute"])
         elif r < 0.8:
             ops.append(["single", round(rw.uniform(0, 0.5), 5), rw.choice([1, 2, 2, 3]) if rw.random() < 0.15 else rw.randrange(1, min(N, 40 if sim else N) + 1)])
-        else:
+        elif r < 0.88:
             ops.append(["construct2"])
+        elif r < 0.92 and world == "numpy":
+            ops.append(["alloc_fault", rw.choice([1, 1, 2, 3])])       # the next NumPy-backend segment gather fails with MemoryError
+            ops.append(["compute"])
+            ops.append(["compute"])
+        else:
+            ops.append(["construct_other", rw.randrange(2 ** 31)])     # an analyzer on ANOTHER non-finite record of the same shape
     # the faults may also arrive *during* the history: the caller's buffer is analysed while still clean, then the
     # non-finite samples are written into the same buffer in place, and it is analysed again
     if faults and not huge and rw.random() < 0.3 and layout not in ("1d_readonly", "2xN_readonly", "1d_list", "list_lists"):
@@ -362,7 +368,8 @@ def execute(sc, out):
                 return False
         return True
 
-    with sess:
+    afault = W.AllocFault()
+    with sess, afault:
         # canonical run (fault-free zero-filled C-contiguous float64), serial schedule, same thread configuration
         try:
             with sess.serial(), plain.installed():
@@ -394,6 +401,7 @@ def execute(sc, out):
         _check_finite(can_res, sc, out, "canonical")
 
         ans = []
+        pending_fault = None
         for op in sc["ops"]:
             kind = op[0]
             out.sim_steps += 1
@@ -428,6 +436,18 @@ def execute(sc, out):
                             out.nontrivial = True
                         ans = []            # analyzers built on the clean content describe the old content
                         continue
+                    if kind == "alloc_fault":
+                        pending_fault = op[1]        # armed only around the library's own next compute / single-bin call
+                        out.count("alloc_fault_armed")
+                        continue
+                    if kind == "construct_other":
+                        # built but never used: its sanitised record must not leak into the analyzers of the main record
+                        dec = np.random.default_rng(op[1]).normal(size=canon.shape) * 911.0
+                        dec.flat[:: max(1, dec.size // 7)] = np.nan
+                        decoy = SC.build_analyzer(dec, cfg)
+                        out.count("decoy_analyzer_on_other_nonfinite_record")
+                        del decoy
+                        continue
                     if kind in ("construct", "construct2"):
                         ans.append(SC.build_analyzer(obj, cfg))
                         where = "after constructing the analyzer"
@@ -440,7 +460,13 @@ def execute(sc, out):
                             out.violate("plan_depends_on_layout", f"key={d.split(' ')[0]}", f"layout={sc['layout']} dtype={sc['dtype']}: plan differs from the canonical layout's in {d}")
                         where = "after plan()"
                     elif kind == "compute":
-                        r = ans[-1].compute()
+                        if pending_fault:
+                            afault.arm(pending_fault)
+                            pending_fault = None
+                        try:
+                            r = ans[-1].compute()
+                        finally:
+                            afault.disarm()
                         raw = SS.raw_fields(r)
                         d = _diff_vs_canonical(raw, can_raw, world, canon, cfg, out)
                         if d is not None:
@@ -452,7 +478,13 @@ def execute(sc, out):
                     elif kind == "single":
                         f = op[1] * cfg["fs"]
                         L = min(op[2], logical.shape[-1])
-                        r = ans[-1].compute_single_bin(f, L=L)
+                        if pending_fault:
+                            afault.arm(pending_fault)
+                            pending_fault = None
+                        try:
+                            r = ans[-1].compute_single_bin(f, L=L)
+                        finally:
+                            afault.disarm()
                         with sess.serial(), plain.installed():
                             rc = SC.build_analyzer(canon.copy(), cfg).compute_single_bin(f, L=L)
                         raw, craw = SS.raw_fields(r), SS.raw_fields(rc)
@@ -465,6 +497,12 @@ def execute(sc, out):
                         where = "after compute_single_bin()"
                     else:
                         continue
+            except MemoryError as e:
+                if "injected" in str(e):
+                    out.count("alloc_fault_fired_and_propagated")
+                    where = f"after {kind} failed with the injected MemoryError"
+                else:
+                    raise
             except Exception as e:
                 from dsim.sched import HarnessError
 
@@ -472,6 +510,7 @@ def execute(sc, out):
                     raise
                 out.violate("exception", f"op={kind} layout={sc['layout']} dtype={sc['dtype']}", f"{kind} raised {type(e).__name__}: {str(e)[:200]} (the canonical layout computes fine)")
                 where = f"after failing {kind}"
+            afault.disarm()
             if not check_buffer(where):
                 break
     sess.absorb(out)
@@ -543,6 +582,17 @@ def _check_finite(res, sc, out, where):
             if v.shape == pos.shape and not np.all(np.isfinite(v[pos])):
                 band = sc.get("amp_band")
                 out.violate("non_finite_error_bar" if band in (None, "overflow") else f"non_finite_error_bar:{band}", n, f"{where}: {n} is not finite at a bin with positive coherence (recipe {sc['data']['recipe']})")
+        # the values again, now that the error bars have been read (whatever they did to shared arrays)
+        for n in names:
+            try:
+                v = getattr(res, n)
+            except Exception:
+                continue
+            if v is not None and not np.all(np.isfinite(np.asarray(v))):
+                band = sc.get("amp_band")
+                out.violate("non_finite_value" if band in (None, "overflow") else f"non_finite_value:{band}", n,
+                            f"{where}: {n} is no longer finite after the error bars were read (recipe {sc['data']['recipe']})")
+                break
     out.count("oracle_finite")
 
 
